@@ -302,12 +302,19 @@ def build(spec):
     # files below directories the tool must not scan (exactly target/ and .git/ at any depth): written to disk, but no
     # part of the project the model and the specification see
     hidden = []
-    for rel, text in spec.get("excluded_files", []):
+    modelled = True
+    for ent in spec.get("excluded_files", []):
+        rel, text = ent[0], ent[1]
         assert rel not in items
-        items[rel] = [{"kind": "raw", "text": text}]
+        if len(ent) > 2:                         # the same text item by item, each with its C07 syntax (sx_item): the file can be
+            items[rel] = [dict(i) for i in ent[2]]   # handed to the extracted c07_layout_eval, which decides that it is ignored
+        else:
+            items[rel] = [{"kind": "raw", "text": text}]
+            modelled = False
         hidden.append(rel)
     if hidden:
         case["c07_hidden"] = hidden
+        case["c07_hidden_modelled"] = modelled
     if spec.get("under"):
         case["under"] = spec["under"]            # the project path handed to the CLI (default proj)
     return case
@@ -338,6 +345,16 @@ def sx_item(it):
 def sx_project(case):
     hidden = set(case.get("c07_hidden", []))
     return [[rel, [sx_item(i) for i in case["files"][rel]]] for rel in sorted(case["files"]) if rel not in hidden]
+
+
+def sx_walk(case):
+    """the walk of the source tree for the extracted c07_layout_eval (Model/C07Layout.v lproject): EVERY file written to
+    disk with its components below the project path, the files below target/ and .git/ included; None when a hidden file
+    is only known as text (corpus cases written before the items were recorded): the caller then drops the hidden files
+    itself, as before"""
+    if case.get("c07_hidden") and not case.get("c07_hidden_modelled"):
+        return None
+    return [[rel.split("/"), ["parsed", [sx_item(i) for i in case["files"][rel]]]] for rel in sorted(case["files"])]
 
 
 def run_cli(case, modes=("none", "zod"), tag="c07", reps=1):
@@ -951,6 +968,20 @@ GHOST = ("use serde::{Deserialize, Serialize};\n#[derive(Serialize, Deserialize)
          "#[tauri::command]\npub fn ghost_cmd%d(a: Ghost%d) -> Ghost%d { a }\n")
 
 
+def ghost_items(i):
+    """GHOST % i item by item, with the C07 syntax of each item"""
+    lines = (GHOST % ((i,) * 6)).split("\n")
+    assert len(lines) == 8 and lines[7] == ""
+    t = lambda n: projgen.sx_type(P(n))
+    sd = ["Serialize", "Deserialize"]
+    return [{"kind": "raw", "text": lines[0]},
+            {"kind": "raw", "text": lines[1] + "\n" + lines[2],
+             "c07": ["def", "Ghost%d" % i, sd, ["struct", [[False, t("i32")], [False, t("GhostInner%d" % i)]]]]},
+            {"kind": "raw", "text": lines[3] + "\n" + lines[4], "c07": ["def", "GhostInner%d" % i, sd, ["struct", [[False, t("i32")]]]]},
+            {"kind": "raw", "text": lines[5] + "\n" + lines[6],
+             "c07": ["fn", "ghost_cmd%d" % i, [["tauri", "command"]], [["a", t("Ghost%d" % i)]], [t("Ghost%d" % i)], []]}]
+
+
 def near_path(d, k):
     t = DEPTH_TEMPLATES[k % len(DEPTH_TEMPLATES)]
     return t % ((d,) * t.count("%s"))
@@ -983,7 +1014,7 @@ def layout_spec(paths, role, excluded=(), under=None, tag="layout"):
     spec = {"types": types, "edges": edges, "cmds": cmds, "helpers": helpers, "nfiles": 4, "alias": False, "paths": ps,
             "shape": tag + "-" + role, "acyclic": True, "clean": True, "naming": "plain"}
     if excluded:
-        spec["excluded_files"] = [[rel, GHOST % ((i,) * 6)] for i, rel in enumerate(excluded)]
+        spec["excluded_files"] = [[rel, GHOST % ((i,) * 6), ghost_items(i)] for i, rel in enumerate(excluded)]
     if under:
         spec["under"] = under
     return spec
